@@ -429,7 +429,18 @@ fn gen_ops(rng: &mut Rng, len: usize, observe_all_at_end: bool) -> Vec<Op> {
             "mh" | "mr" => rng.range(0, 7),
             _ => rng.range(1, 5) * 100,
         };
-        let hv: Vec<u8> = format!("v{}", rng.below(4)).into_bytes();
+        // one value in five is empty, blank or spelled like a default: a field the caller supplied
+        // counts as supplied whatever its value (seed C16-seed7)
+        let hv: Vec<u8> = match rng.below(10) {
+            0 => Vec::new(),
+            1 => match rng.below(4) {
+                0 => b"*/*".to_vec(),
+                1 => default_ua().into_bytes(),
+                2 => b"\t".to_vec(),
+                _ => b" ".to_vec(),
+            },
+            _ => format!("v{}", rng.below(4)).into_bytes(),
+        };
         let op = match rng.below(16) {
             0 => Op::NewSession,
             1 | 2 => Op::Clone(rng.below(ns as u64) as usize),
